@@ -7,7 +7,7 @@ with per-session order, no session panics or deadlocks, and the database reopens
 
 For the code that exists the unrestricted statement is FALSE; the refutations below are
 schedules taken from the real implementation (the check replays them on it):
-`drop_vs_insert_witness`
+`drop_vs_insert_regression`
 (and C09's two witnesses for DELETE vs compaction); `drop_vs_compaction_regression` and
 `drop_dv_vs_compaction_regression` are the regression inputs of two defects fixed in /repo 6efcfe7.  What is proved for every schedule:
 `exactly_once`, `epoch_counts_commits`; and for the restricted fragment {INSERT, SELECT,
@@ -216,16 +216,16 @@ def dropVsCompactionSchedule : List Act :=
 /-- `INSERT INTO t1` has pinned and written its row-set; `DROP TABLE t1` commits; the INSERT
 commits afterwards. -/
 def dropVsInsertSchedule : List Act :=
-  [.cmdBegin (0,0) (.create 1), .bound (0,0), .commitBegin (0,1), .commitA (0,1), .append (0,1),
-   .committed (0,1), .createApplied (0,1), .cmdDone (0,0), .cmdBegin (0,0) (.insert 1 [1]),
-   .pin (0,0), .txnPinned (0,0) .ro 0, .unpin (0,0) 2, .bound (0,0), .pin (0,2),
-   .txnPinned (0,2) .rw 0, .commitBegin (0,2), .commitA (0,2), .append (0,2), .committed (0,2),
-   .unpin (0,2) 2, .cmdDone (0,0), .cmdBegin (1,0) (.insert 1 [2]), .cmdBegin (2,0) (.drop 1),
-   .pin (1,0), .txnPinned (1,0) .ro 0, .unpin (1,0) 3, .bound (1,0), .pin (1,1),
-   .txnPinned (1,1) .rw 0, .commitBegin (1,1), .pin (2,0), .txnPinned (2,0) .ro 0, .unpin (2,0) 3,
-   .bound (2,0), .dropApplied (2,1), .pin (2,1), .commitBegin (2,1), .commitA (2,1),
-   .append (2,1), .committed (2,1), .unpin (2,1) 3, .cmdDone (2,0), .commitA (1,1), .append (1,1),
-   .committed (1,1), .unpin (1,1) 3, .cmdDone (1,0)]
+  [.cmdBegin (0,0) (.create 1), .bound (0,0), .lockBegin (0,1), .commitBegin (0,1),
+   .commitA (0,1), .append (0,1), .committed (0,1), .createApplied (0,1), .cmdDone (0,0),
+   .cmdBegin (0,0) (.insert 1 [1]), .pin (0,0), .txnPinned (0,0) .ro 0, .unpin (0,0) 2,
+   .bound (0,0), .pin (0,2), .txnPinned (0,2) .rw 0, .commitBegin (0,2), .commitA (0,2),
+   .append (0,2), .committed (0,2), .unpin (0,2) 2, .cmdDone (0,0),
+   .cmdBegin (1,0) (.insert 1 [2]), .cmdBegin (2,0) (.drop 1), .pin (1,0), .txnPinned (1,0) .ro 0,
+   .unpin (1,0) 3, .bound (1,0), .pin (1,1), .txnPinned (1,1) .rw 0, .commitBegin (1,1),
+   .pin (2,0), .txnPinned (2,0) .ro 0, .unpin (2,0) 3, .bound (2,0), .dropApplied (2,1),
+   .pin (2,1), .commitBegin (2,1), .commitA (2,1), .append (2,1), .committed (2,1),
+   .unpin (2,1) 3, .cmdDone (2,0), .unpin (1,1) 3, .cmdDone (1,0)]
 
 def createRecords (acts : List Act) (n : Nat) : Nat :=
   (((stateOf acts).k.log.flatMap id).filter (fun o => match o with
@@ -258,13 +258,15 @@ theorem drop_vs_compaction_regression :
     ∧ (resultsOf dropVsCompactionSchedule).filter (fun r => r.1 != 0) = [(1, true), (2, true)] := by
   decide
 
-/-- The INSERT is acknowledged after the DROP: its row-set is in the current snapshot (and in
-the manifest) for a table that no longer exists — reopening panics on it. -/
-theorem drop_vs_insert_witness :
+/-- REGRESSION (was `sched:drop-vs-dml-commit-orphan`, fixed in /repo c955db2): `commit_changes`
+refuses the INSERT's row-set because DROP TABLE marked the table before it pinned: the INSERT
+fails (not acknowledged), the DROP is acknowledged, nothing of the table is left in the snapshot
+or the manifest beyond the DROP's own records. -/
+theorem drop_vs_insert_regression :
     (run init dropVsInsertSchedule).isSome = true
     ∧ (stateOf dropVsInsertSchedule).tables = []
-    ∧ ((stateOf dropVsInsertSchedule).k.status (stateOf dropVsInsertSchedule).k.epoch).rs ≠ []
-    ∧ (resultsOf dropVsInsertSchedule).filter (fun r => r.1 != 0) = [(2, true), (1, true)] := by
+    ∧ ((stateOf dropVsInsertSchedule).k.status (stateOf dropVsInsertSchedule).k.epoch).rs = []
+    ∧ (resultsOf dropVsInsertSchedule).filter (fun r => r.1 != 0) = [(2, true), (1, false)] := by
   decide
 
 /-- REGRESSION INPUT (was `sched:drop-vs-compaction-delete-dv-panic`, fixed in /repo 6efcfe7):
